@@ -19,6 +19,12 @@ CHECKS = {
         text="TLC proves ReadOnlyQuiet on the reference semantics and enumerates every distinct store state (bounded) with the predicted effect of every operation of the alphabet (every request-parameter class, refused requests, unknown and malformed thread ids); the harness executes each (state, operation) pair on the real store and compares events.jsonl byte for byte before/after: exact prefix, whole newline-terminated frames, nothing when the model predicts nothing. Restart / cache-fault / injected-append-failure histories are validated by TLC as traces.",
         note="Exhaustive within MaxFrames/MaxOps of the configuration; sequential histories; trusted: TLC, the byte comparison in the harness.",
         ref="4 C02"),
+    "C04": dict(
+        engine="StoreCache",
+        technique="TLA+ spec StoreCache (status algebra of the nine cache files, accept rule of every fast path) model-checked with TLC; TLC-enumerated fault/append/restart paths replayed on the real store with a differential oracle (caches as found vs removed) over every read capability under a watchdog",
+        text="TLC proves Transparent for accept = complete, shows the counterexamples of the accept rules as implemented, and enumerates every reachable status vector of the nine cache files (delete / truncate / garbage / empty / rollback on any file, interleaved with appends, restarts and rebuilding reads); the harness replays each path on real threads (short, > 256 frames, > 10^4 frames, > 8 MiB) and evaluates replay, cut points, status, cursor status, selection status, plans, compiled context (tail / middle / first / stride-boundary anchors) and branch/handoff resolution twice; any difference on a vector the as-implemented model calls transparent, and any call that does not return within the watchdog, is a violation.",
+        note="Verdict = differential on the implementation itself (best-effort field inflight_job_id excluded); differences on vectors the model declares non-transparent are attributed to the recorded D14 findings by culprit file; exhaustive over status vectors reachable in MaxSteps fault/append steps.",
+        ref="4 C04"),
     "C05": dict(
         engine="StoreSeq",
         category="model_checking",
